@@ -1374,7 +1374,18 @@ func simC17Store(c *Ctx) {
 			levels := (4 + c.G(3)) * 100000
 			var unit, tail, closeUnit []byte
 			codec := "msgpack"
-			switch c.G(6) {
+			var prefix []byte
+			nestT := tDynamic
+			switch c.G(8) {
+			case 6, 7:
+				// ... under a key the reading type does not declare (what a reader does with members it does not
+				// want - skipping them included - is paid per level too)
+				unit = []byte{0x91}
+				prefix = []byte{0x82, 0xa1, 'a', 0xa1, 'x', 0xa2, 'z', 'z'}
+				if c.G(2) == 0 {
+					prefix = []byte{0x81, 0xa2, 'z', 'z'}
+				}
+				nestT = &TDesc{K: KObject, Names: []string{"a"}, Elems: []*TDesc{tString}}
 			case 0:
 				codec, unit = "json", []byte("[")
 			case 1:
@@ -1388,9 +1399,10 @@ func simC17Store(c *Ctx) {
 			default:
 				unit, tail = append(append([]byte{0x92, 0xc4, 18}, `["list","dynamic"]`...), 0x91), []byte{0xc0}
 			}
-			b := append(bytes.Repeat(unit, levels), tail...)
+			b := append(append([]byte(nil), prefix...), bytes.Repeat(unit, levels)...)
+			b = append(b, tail...)
 			b = append(b, bytes.Repeat(closeUnit, levels)...)
-			rec = c17Record{codec: codec, data: b, t: tDynamic, enc: tDynamic, desc: fmt.Sprintf("%q x %d", unit, levels)}
+			rec = c17Record{codec: codec, data: b, t: nestT, enc: nestT, desc: fmt.Sprintf("%x %q x %d", prefix, unit, levels)}
 			c.Probe("c17.megabytes-of-nesting")
 		}
 		store[ri] = rec
